@@ -136,17 +136,49 @@ Proof.
   now apply reg_get_del_other.
 Qed.
 
-(* every handler list is strictly sorted by (priority descending, registration order), and sequence
-   numbers are below the counter (so a new registration is the latest) *)
+Lemma reg_get_In e l r : reg_get e r = Some l -> In (e, l) r.
+Proof.
+  induction r as [|[e' l'] t IH]; cbn; [discriminate|].
+  destruct (e =? e') eqn:E.
+  - apply Z.eqb_eq in E; subst. intro H; inversion H; subst. now left.
+  - intro H. right. now apply IH.
+Qed.
+Lemma reg_del_In e e' l r : In (e', l) (reg_del e r) -> In (e', l) r.
+Proof.
+  induction r as [|[e2 l2] t IH]; cbn; [tauto|].
+  destruct (e =? e2); cbn; intro H; [right; now apply IH|].
+  destruct H as [H|H]; [now left|right; now apply IH].
+Qed.
+Lemma reg_put_In e l e' l' r : In (e', l') (reg_put e l r) -> (e' = e /\ l' = l) \/ In (e', l') r.
+Proof.
+  unfold reg_put. intros [H|H]; [inversion H; now left|right; now apply reg_del_In in H].
+Qed.
+Lemma reg_filter_In f e l' r :
+  In (e, l') (reg_filter f r) -> exists l, In (e, l) r /\ l' = filter f l /\ l' <> [].
+Proof.
+  induction r as [|[e2 l2] t IH]; cbn; [tauto|].
+  destruct (filter f l2) as [|x fl] eqn:F; cbn.
+  - intro H. destruct (IH H) as (l & I1 & I2). exists l. split; [now right|exact I2].
+  - intros [H|H].
+    + inversion H; subst. exists l2. split; [now left|]. split; [now rewrite F|discriminate].
+    + destruct (IH H) as (l & I1 & I2). exists l. split; [now right|exact I2].
+Qed.
+
+(* every handler list (every entry of the registry) is strictly sorted by (priority descending, registration
+   order), and sequence numbers are below the counter (so a new registration is the latest) *)
 Definition reg_ok (s : state) : Prop :=
-  forall e l, reg_get e (reg s) = Some l ->
+  forall e l, In (e, l) (reg s) ->
     sorted_ps l /\ Forall (fun x => h_seq x < nseq s) l.
+
+Lemma reg_ok_get s e l : reg_ok s -> reg_get e (reg s) = Some l ->
+  sorted_ps l /\ Forall (fun x => h_seq x < nseq s) l.
+Proof. intros H G. apply (H e). now apply reg_get_In. Qed.
 
 Lemma reg_ok_eq s s' : reg s' = reg s -> nseq s' = nseq s -> reg_ok s -> reg_ok s'.
 Proof. unfold reg_ok. intros E1 E2 H e l. rewrite E1, E2. apply H. Qed.
 
 Lemma reg_ok_init : reg_ok init.
-Proof. intros e l; cbn; discriminate. Qed.
+Proof. intros e l; cbn; tauto. Qed.
 
 Lemma add_handler_ok key e pid prio hk c s : reg_ok s -> reg_ok (add_handler key e pid prio hk c s).
 Proof.
@@ -154,14 +186,12 @@ Proof.
   set (h := mkH key pid prio (kw_norm hk) c (nseq s)).
   set (l := match reg_get e (reg s) with Some l => l | None => [] end).
   assert (Hl : sorted_ps l /\ Forall (fun x => h_seq x < nseq s) l).
-  { subst l. destruct (reg_get e (reg s)) eqn:G; [now apply (H e)|]. split; constructor. }
-  destruct Hl as [Sl Fl].
-  destruct (Z.eq_dec e' e) as [->|N].
-  - rewrite reg_get_put_same. intro E; inversion E; subst l'; clear E.
-    rewrite (sort_app_last h l Sl). split.
+  { subst l. destruct (reg_get e (reg s)) eqn:G; [now apply (reg_ok_get s e)|]. split; constructor. }
+  destruct Hl as [Sl Fl]. intro I. apply reg_put_In in I as [[-> ->]|I].
+  - rewrite (sort_app_last h l Sl). split.
     + apply place_sorted; [exact Sl|]. exact Fl.
     + apply place_Forall; [cbn; lia|]. eapply Forall_impl; [|exact Fl]. cbn; intros; lia.
-  - rewrite reg_get_put_other by exact N. intro G. destruct (H _ _ G) as [S F]. split; [exact S|].
+  - destruct (H _ _ I) as [S F]. split; [exact S|].
     eapply Forall_impl; [|exact F]. cbn; intros; lia.
 Qed.
 
@@ -169,15 +199,43 @@ Lemma remove_by_key_ok key s : reg_ok s -> reg_ok (remove_by_key key s).
 Proof.
   intro H. unfold remove_by_key. destruct (assoc key (keys s)) as [e|]; [|exact H].
   destruct (reg_get e (reg s)) as [l|] eqn:G; [|exact H].
-  destruct (H _ _ G) as [S F]. intros e' l'. cbn [reg nseq set_reg].
-  destruct (is_nil _) eqn:N.
-  - destruct (Z.eq_dec e' e) as [->|Ne].
-    + rewrite reg_get_del_same. discriminate.
-    + rewrite reg_get_del_other by exact Ne. apply H.
-  - destruct (Z.eq_dec e' e) as [->|Ne].
-    + rewrite reg_get_put_same. intro E; inversion E; subst. split; [now apply filter_sorted|now apply filter_Forall].
-    + rewrite reg_get_put_other by exact Ne. apply H.
+  destruct (reg_ok_get _ _ _ H G) as [S F]. intros e' l'. cbn [reg nseq set_reg].
+  destruct (is_nil _) eqn:N; intro I.
+  - apply reg_del_In in I. exact (H _ _ I).
+  - apply reg_put_In in I as [[-> ->]|I]; [|exact (H _ _ I)].
+    split; [now apply filter_sorted|now apply filter_Forall].
 Qed.
+
+Lemma remove_by_method_ok pid s : reg_ok s -> reg_ok (remove_by_method pid s).
+Proof.
+  intros H e l'. unfold remove_by_method. cbn [reg nseq set_reg]. intro I.
+  apply reg_filter_In in I as (l & I & -> & _). destruct (H _ _ I) as [S F].
+  split; [now apply filter_sorted|now apply filter_Forall].
+Qed.
+
+Lemma replace_handler_ok key e pid prio hk s : reg_ok s -> reg_ok (replace_handler key e pid prio hk s).
+Proof.
+  intro H. unfold replace_handler. apply add_handler_ok.
+  destruct (reg_get e (reg s)) as [l|] eqn:G; [|exact H].
+  destruct (reg_ok_get _ _ _ H G) as [S F]. intros e' l'. cbn [reg nseq set_reg]. intro I.
+  apply reg_put_In in I as [[-> ->]|I]; [|exact (H _ _ I)].
+  split; [now apply filter_sorted|now apply filter_Forall].
+Qed.
+
+(* after remove_handler(method) no registration of that procedure is left, in any event, whatever the registry
+   was; and no event is left with an empty handler list (does_event_exist is exact) *)
+Lemma remove_by_method_complete pid s e l :
+  In (e, l) (reg (remove_by_method pid s)) -> Forall (fun h => h_pid h <> pid) l /\ l <> [].
+Proof.
+  unfold remove_by_method. cbn [reg set_reg]. intro I.
+  apply reg_filter_In in I as (l0 & _ & -> & N). split; [|exact N].
+  apply Forall_forall. intros h Hh. apply filter_In in Hh as [_ Hh].
+  apply negb_true_iff, Z.eqb_neq in Hh. exact Hh.
+Qed.
+
+Lemma remove_by_method_snapshot pid s e l :
+  reg_get e (reg (remove_by_method pid s)) = Some l -> Forall (fun h => h_pid h <> pid) l /\ l <> [].
+Proof. intro G. apply (remove_by_method_complete pid s e). now apply reg_get_In. Qed.
 
 Lemma post_reg fast e ty cb k s : reg (post fast e ty cb k s) = reg s /\ nseq (post fast e ty cb k s) = nseq s.
 Proof. unfold post. destruct (_ && _ && _); split; reflexivity. Qed.
@@ -188,6 +246,8 @@ Proof.
   - intro H. destruct (post_reg fast e ty cb k s) as [E1 E2]. exact (reg_ok_eq _ _ E1 E2 H).
   - apply add_handler_ok.
   - apply remove_by_key_ok.
+  - apply remove_by_method_ok.
+  - apply replace_handler_ok.
 Qed.
 
 Lemma run_acts_ok fast l s : reg_ok s -> reg_ok (run_acts fast l s).
@@ -281,6 +341,8 @@ Proof.
   - apply hgrows_frame; reflexivity.
   - unfold remove_by_key. destruct (assoc key (keys s)); [|apply hgrows_refl].
     destruct (reg_get z (reg s)); [|apply hgrows_refl]. apply hgrows_frame; reflexivity.
+  - apply hgrows_frame; reflexivity.
+  - unfold replace_handler. destruct (reg_get e (reg s)); apply hgrows_frame; reflexivity.
 Qed.
 
 Lemma run_acts_grows fast l : forall s, hgrows s (run_acts fast l s) [].
@@ -737,7 +799,7 @@ Lemma handlers_once_l fast sc p s :
 Proof.
   intros R T. cbn zeta. split; [now apply process_plain|].
   unfold snapshot. destruct (reg_get (q_ev p) (reg s)) as [l|] eqn:G.
-  - destruct (R _ _ G) as [S _]. split; [exact S|now apply sorted_ps_NoDup].
+  - destruct (reg_ok_get _ _ _ R G) as [S _]. split; [exact S|now apply sorted_ps_NoDup].
   - split; constructor.
 Qed.
 
@@ -770,7 +832,7 @@ Lemma add_handler_stable_l key e pid prio hk c s :
 Proof.
   intro R. unfold snapshot, add_handler. cbn [reg set_reg]. rewrite reg_get_put_same.
   destruct (reg_get e (reg s)) as [l|] eqn:G.
-  - destruct (R _ _ G) as [S _]. now apply sort_app_last.
+  - destruct (reg_ok_get _ _ _ R G) as [S _]. now apply sort_app_last.
   - reflexivity.
 Qed.
 
@@ -896,3 +958,13 @@ Example ex_add_hyp :
   reg_ok ex_state /\ map h_key (snapshot 1 ex_state) = [3; 1] /\
   map h_key (snapshot 1 (add_handler 9 1 1 2 [] None ex_state)) = [3; 9; 1].
 Proof. split; [apply run_turns_ok, reg_ok_init|]. vm_compute. split; reflexivity. Qed.
+
+(* the same procedure registered three times for one event (adjacent, equal priority) and once for another *)
+Definition rm_state : state :=
+  run_acts true [AAdd 1 1 7 1 0 0 [] None; AAdd 2 1 7 1 0 0 [] None; AAdd 3 1 7 1 0 0 [] None;
+                 AAdd 4 1 8 1 0 0 [] None; AAdd 5 2 7 1 0 0 [] None] init.
+Example ex_remove_method :
+  map h_key (snapshot 1 rm_state) = [1; 2; 3; 4] /\
+  map h_key (snapshot 1 (remove_by_method 7 rm_state)) = [4] /\
+  reg_get 2 (reg (remove_by_method 7 rm_state)) = None.
+Proof. vm_compute. repeat split. Qed.
